@@ -3,7 +3,7 @@
     Model: Model/Loop.v.  [passes c o]: the slowest sample of round [o], in
     whole multiples of the precision, exceeds 100; [first_pass c l]: index of
     the first such round of [l]; [pow2 j] = 2^j. *)
-From DivanV Require Import Base.Res Generated.Consts Model.Timestamp Model.Loop Proofs.Loop Proofs.LoopProps Proofs.LoopTotal Proofs.LoopSb.
+From DivanV Require Import Base.Res Generated.Consts Model.Timestamp Model.Loop Proofs.Loop Proofs.LoopProps Proofs.LoopTotal Proofs.LoopSb Proofs.LoopExamples.
 Local Open Scope N_scope.
 
 (** Obligations on the generated constants: threshold `<= 100`, doubling. *)
@@ -108,3 +108,12 @@ Theorem C19_model_sb : forall c init hist out t s,
   c19_sb c init (firstn (rounds_of (out_state out)) hist) s = true.
 Proof. exact c19_model_sb. Qed.
 Print Assumptions C19_model_sb.
+
+(** Non-vacuity of [C19_threshold_round_counts] (the run of [C19_tune_example]). *)
+Theorem C19_threshold_round_counts_example :
+  c_test ex_tune_cfg = false /\ c_size ex_tune_cfg = None /\ has_samples ex_tune_cfg = true /\
+  uniform_p 2 ex_tune_hist /\ first_pass ex_tune_cfg ex_tune_hist = Some 2%nat /\
+  (2 + N.to_nat (ceil_div (sample_count_of ex_tune_cfg) 2) <= length ex_tune_hist)%nat /\
+  (forall j, (j < 2 + 3)%nat -> elapsed_after ex_tune_cfg 0 ex_tune_hist j < c_max ex_tune_cfg) /\
+  c_min ex_tune_cfg <= elapsed_after ex_tune_cfg 0 ex_tune_hist (2 + 3).
+Proof. exact threshold_round_counts_example. Qed.
